@@ -186,6 +186,8 @@ def reproduced(cex, rr):
         return False
     if cex["kind"] == "panic":
         return rr.get("panic") is not None
+    if cex["kind"] == "assert" and cex["label"].startswith("cut-"):
+        return bool(rr.get("fails")) or rr.get("panic") is not None
     if cex["kind"] == "assert":
         return cex["label"] in (rr.get("fails") or []) or rr.get("panic") is not None
     return False
